@@ -49,9 +49,19 @@ func main() {
 	manifest := flag.Bool("manifest", false, "write MANIFEST.json from the property registry")
 	selftest := flag.Bool("selftest", false, "run fixtures for every rule")
 	flag.BoolVar(&dumpAll, "dump", false, "print every obligation")
+	genKF := flag.Bool("genknownfields", false, "print knownfields.go for the tree at -repo")
 	mutants := flag.Bool("mutants", false, "run the overlay-mutant sweep for -prop (or all)")
 	flag.Parse()
 
+	if *genKF {
+		p, err := loadWith(*repo, "", "", nil)
+		if err != nil {
+			fmt.Fprintln(os.Stderr, err)
+			os.Exit(2)
+		}
+		fmt.Print(p.genKnownFields())
+		return
+	}
 	if *list {
 		var ids []string
 		for id := range props {
